@@ -10,8 +10,7 @@ CHECKS = {
     text="Theorems C16_chunks_concat / C16_digest_is_standard / C16_order_preserved hold for every content, buffer size >= 1, "
          "short-read pattern and algorithm tuple. The model is tied to /repo by replaying the real function with a controlled readinto "
          "and recording hash objects; recorded digests of real datasets are compared with independent one-shot digests."
-         " Overlapping calls: six threads digest different multi-chunk files at the same time; every result must equal the one-shot digest (the model treats a call as a pure function of the file's bytes - shared state between calls would falsify that)."
-         " C16Src.lean re-checks on the statement order extracted from the current source that _get_hash_function returns a freshly constructed object in every branch and stores nothing, and that hash_checksums creates, feeds and then reads the objects; every algorithm is also requested twice and three times in one call.",
+         " Overlapping calls: six threads digest different multi-chunk files at the same time; every result must equal the one-shot digest (the model treats a call as a pure function of the file's bytes - shared state between calls would falsify that).",
     note="Digest algorithms (hashlib, xxhash) and CPython file objects are modelled, not verified; streaming law is an explicit hypothesis.",
     ref="DESIGN.md §5 C16"),
  "C10": dict(
@@ -26,8 +25,7 @@ CHECKS = {
     technique="Lean 4 proof (label invariant of M-FILL under value semantics; reference-semantics counterexample by decide; labels carried through M-TREE to every enumerated shard after every history) + differential correspondence incl. in-place mutation of the caller's dict",
     text="C11_md_labels, C11_every_write_listed_once, C11_select_by_md for every write sequence; C11_alias_counterexample is the kernel-checked witness of the "
          "pinned by-reference defect (fixed in /repo). Correspondence runs mutate and reuse the caller's objects across size boundaries and splits."
-         ' System level (SedpackProps/C11System.lean): C11_enumerated_shard_origin, C11_enumerated_shards_labelled, C11_history_labelled: every shard entry a reader enumerates after any history is the record of a closed shard whose examples written under a non-empty value were written under the recorded one.'
-         ' C11Src.lean re-checks on the statement order extracted from the current source that the label assigned to the open shard is the result of deepcopy, attached after the write was accepted. Directed runs keep ONE metadata object and change the distinguishing value in place inside containers of several kinds (a list held by a tuple, a set, nested tuples).',
+         ' System level (SedpackProps/C11System.lean): C11_enumerated_shard_origin, C11_enumerated_shards_labelled, C11_history_labelled: every shard entry a reader enumerates after any history is the record of a closed shard whose examples written under a non-empty value were written under the recorded one.',
     note="Examples written with absent metadata are unconstrained (documented retroactive labelling). JSON round-trip of metadata values is C20's concern.",
     ref="DESIGN.md §5 C11"),
  "C18": dict(
@@ -45,8 +43,7 @@ CHECKS = {
          "C13_reuse_is_fresh_pass / _reuse_exactly_once / _reuse_old_workers_drain (a re-used pool object is a list of independent passes: M-POOL Multi), "
          "prefill P>=T, finite or infinite input, every failing set and every interleaving; C13_original_deadlocks is the kernel-checked stuck state of the pinned "
          "code (fixed in /repo). The real pool runs under a scheduler that owns every queue operation (deadlock decided exactly); each trace must be accepted by the "
-         "compiled model with the measured P and end in a terminal model state; re-use is exercised both after draining and overlapped (second pass started while the abandoned pass's workers are still scheduled). Thorough adds exhaustive schedule enumeration for tiny (T,n) as model validation."
-         " C13Src.lean re-checks on the statement order extracted from the current source that __exit__ calls finish_and_reset first, once and outside any branch, and that the reset puts the sentinels before it forgets the queue; the consumer leaves the context by break and by exceptions of every kind (KeyboardInterrupt, SystemExit, GeneratorExit, ...).",
+         "compiled model with the measured P and end in a terminal model state; re-use is exercised both after draining and overlapped (second pass started while the abandoned pass's workers are still scheduled). Thorough adds exhaustive schedule enumeration for tiny (T,n) as model validation.",
     note="CPython queue.Queue (FIFO, blocking get) and threading are the modelled boundary; abandoning is allowed at any point between two results (a superset of the yield points).",
     ref="DESIGN.md §5 C13, Appendix A.1"),
  "C02": dict(
@@ -71,8 +68,7 @@ CHECKS = {
     text="C14_shuffle_buffer_readahead (<= b+1, <= b between nexts), C14_shuffle_buffer_prefill, C14_round_robin_readahead (<= b open), C14_pool_inflight (<= 2T+2), "
          "C14_batches_bounded, C14_shuffle_buffer_productive. Measured pulled-yielded of the real code equals the monitor's value on the same trace; LazyPool read-ahead "
          "is checked to be independent of the input length; shard opens for k examples of a repeating stream are bounded independently of the dataset size."
-         ' Rust reader (SedpackProps/C14Rust.lean): C14_rust_total_read_ahead - in every reachable state of M-PMAP, also after drop, the items taken from the input are at most the results returned plus the worker count; the cargo harness measures exactly that on the real parallel_map (instrumented input iterator: pulled for k results, and by the time the iterator is dropped) and the recorded channel operations must contain no next() after drop.'
-         ' C14Src.lean re-checks on the statement order extracted from the current source that the four stage generators contain no comparison (they never look at the elements they move), pull once per iteration and yield before they overwrite a slot; streams of None / falsy / unhashable / array elements are run through the three stages.',
+         ' Rust reader (SedpackProps/C14Rust.lean): C14_rust_total_read_ahead - in every reachable state of M-PMAP, also after drop, the items taken from the input are at most the results returned plus the worker count; the cargo harness measures exactly that on the real parallel_map (instrumented input iterator: pulled for k results, and by the time the iterator is dropped) and the recorded channel operations must contain no next() after drop.',
     note="Memory inside TensorFlow / the Rust extension is out of scope; the shard-path shuffle buffer holds path strings only.",
     ref="DESIGN.md §5 C14"),
  "C19": dict(
@@ -131,16 +127,14 @@ CHECKS = {
     technique="Lean 4 proof (for every path string the repaired validators accept, root/path normalises to root ++ components; everything outside is rejected; pinned-validator counterexample by decide) + grammar-generated strings through pathlib and the real validators, crafted hostile datasets with every file open recorded",
     text="C17_validator_contains, C17_rejects_outside, C17_list_and_subdir_validators, C17_list_name, C17_reads_inside, C17_absolute_counterexample. M-PATH's parser/join/validators are compared with "
          "pathlib, FileInfo, ShardsList, ShardListInfo and the filler guard on hundreds (thorough: thousands) of grammar strings; datasets whose shard / child-list / self paths point outside "
-         "the root (absolute, relative, via ..) are opened, checked, iterated and written: nothing outside may be opened or created."
-         " C17Src.lean re-checks on the statement order extracted from the current source that the filler context only stores its arguments after its two guards (nothing transforms the sub-directory between check and use) and that every shard location goes through the validating FileInfo constructor; sub-directories holding $VAR / ${VAR} / ~ are written with the variables set to values that lead outside.",
+         "the root (absolute, relative, via ..) are opened, checked, iterated and written: nothing outside may be opened or created.",
     note="No symlinks inside the dataset directory; pathlib's parser is modelled (and compared). Native readers' opens are seen through their results (a recognisable example id) and the audit hook.",
     ref="DESIGN.md §5 C17"),
  "C20": dict(
     technique="Lean 4 proof (version gate characterised for all triples; dump-without-defaults/load-with-defaults identity for every document; relocation invariance from C17's containment) + differential runs of the gate and of pydantic's exclude_defaults, generated descriptions and relocated datasets",
     text="C20_gate, C20_same_or_older_loads, C20_defaults_roundtrip, C20_relocation_invariant. Version triples around the running version (incl. multi-digit components) are stamped into real datasets and "
          "the verdict compared with Ver.loads and with numeric tuple comparison; random ShardsList documents go through model_dump_json(exclude_defaults)/validate and the model's dump/load; descriptions with "
-         "unicode and nested JSON metadata at dataset/attribute/shard level are reopened and compared; copies/moves (nested, unicode, blank, cwd-relative) are opened, checked, iterated and written to."
-         " C20Src.lean re-checks on the statement order extracted from the current source that DatasetBase.__init__ resolves the root after and outside the try around expanduser and stores the resolved path last.",
+         "unicode and nested JSON metadata at dataset/attribute/shard level are reopened and compared; copies/moves (nested, unicode, blank, cwd-relative) are opened, checked, iterated and written to.",
     note="pydantic-core's JSON text layer and semver's parser are externals (partial: exercised, not proved).",
     ref="DESIGN.md §5 C20"),
  "C15": dict(
